@@ -8,6 +8,7 @@ from ..core import case_nprng
 from ..drivers import dsm
 from ..oracles import stock as S
 
+PIGGY = True  # thorough tier also runs the repository tests / howtos / examples under these monitors
 LEVEL = "exploration"
 BUDGET = {"quick": 50, "thorough": 330}
 SHARDS = {"quick": 1, "thorough": 16}
